@@ -77,6 +77,10 @@ def main(tier, only=None):
     if hs:
         e1.run_set(chk, "c07/fold.c", hs, workers=8, extra_src=extra)
 
+    if (not only) or "const" in only:
+        import c07_e2
+        c07_e2.run(chk, tier)
+
     if os.environ.get("VERIF_VERBOSE"):
         for o in chk.obl:
             print("  %-40s %-12s %6.1fs %s" % (o["key"], o["status"], o["secs"], o["detail"][:110]))
